@@ -40,6 +40,8 @@ func init() {
 	Plans["C04"].QuickSec = 300
 	Plans["C12"].QuickSec = 300
 	Plans["C15"].QuickSec = 300
+	Plans["C10"].QuickSec = 300
+	Plans["C14"].QuickSec = 300
 	for _, p := range Plans {
 		p.ThoroSec = 3000
 	}
@@ -62,6 +64,7 @@ var heavyHarness = map[string]int{
 	"H_C03_escapes": 1, "H_C03_funcs": 2,
 	"H_C06_generated": 1, "H_C06_pure": 2,
 	"H_C14_extremes": 1,
+	"H_C10_selectors": 1,
 	"H_C15_strict": 1, "H_C15_unordered": 1,
 }
 
